@@ -188,11 +188,14 @@ func c18(c *Ctx) {
 			pb.WriteString(atoms[r.Intn(len(atoms))])
 		}
 		pat := pb.String()
+		if r.Intn(4) == 0 {
+			pat = []string{"a", "b", "ab", "ba", "x", "-", "a b", "Z"}[r.Intn(8)] // a pattern without any metacharacter
+		}
 		subj := randStr(12, true)
 		if strings.ContainsAny(subj, "\\\"") {
 			continue
 		}
-		tpl := []string{"", "X", "$1", "[$0]", "${1}y", "$2$1"}[r.Intn(6)]
+		tpl := []string{"", "X", "$1", "[$0]", "${1}y", "$2$1", "${0}", "<${0}>", "$$", "a$$b", "$name", "${name}x", "${0}${0}", "$", "$0$$"}[r.Intn(15)]
 		re, err := regexp.Compile(pat)
 		var entries []string
 		mres, rres := "bad", "bad"
